@@ -17,11 +17,18 @@ package c19
 // the reference model as well and a difference there is reported under a clause of its own
 // (sequence-reference): "the text was already wrong before this unit's definer ran".
 //
-// Clauses: sequence (second rendering of the user differs from the first, the definer
-// defines a name the user reaches through its style, extends or fallback links and does not
-// define itself), sequence-unrelated-definer (same difference although the definer defines
-// no such name), sequence-reference (first rendering of the user, or the definer's, differs
-// from the reference model).
+// Clauses. "The documents give state a way to show" from a to b means: a defines a name
+// that b reaches through its style, extends or fallback links and does not define itself, or
+// both reach a name that prints differently in the two documents.
+//   - sequence: the second rendering of the user differs from the first, and the documents
+//     give state a way to show from definer to user;
+//   - sequence-definer: the definer (rendered after the user) differs from the reference
+//     model, and the documents give state a way to show from user to definer (a user that
+//     was rendered first hides state that the first document to use a name leaves behind:
+//     only the middle document can show it);
+//   - sequence-unrelated-definer / sequence-reference: the same two differences without such
+//     a way, and the first rendering of the user against the model: on a tree that carries
+//     state over these depend on the history of the worker process.
 
 import (
 	"fmt"
@@ -197,44 +204,77 @@ func reached(env refEnv, name string) map[string]string {
 	return out
 }
 
-// seqFeatures: tags of the pair, from the two documents alone.
-func (c *check) seqFeatures(definer, user seqDoc) []string {
-	set := map[string]bool{"sequence": true, "definer-rules=" + definer.rules.name: true, "user-rules=" + user.rules.name: true, "use=" + user.use: true}
+// definesForOther: the names that document a defines and document b reaches through its
+// style, extends or fallback links without defining them itself (what a definition carried
+// over from a to b would change), with how b reaches them.
+func (c *check) definesForOther(a, b seqDoc) map[string]string {
+	out := map[string]string{}
+	own := map[string]bool{}
+	for _, r := range b.effective() {
+		own[r.Name] = true
+	}
+	rs := reached(c.envFor(b.effective()), b.use)
+	for _, r := range a.effective() {
+		if how, ok := rs[r.Name]; ok && !own[r.Name] {
+			out[r.Name] = how
+		}
+	}
+	return out
+}
+
+// commonNameDiffers: some name that both documents reach prints differently in the two
+// documents (what a resolution of the name carried over at the time of use, in either
+// direction, would change).
+func (c *check) commonNameDiffers(a, b seqDoc) bool {
+	ra := reached(c.envFor(a.effective()), a.use)
+	rb := reached(c.envFor(b.effective()), b.use)
+	for n := range ra {
+		if _, ok := rb[n]; !ok {
+			continue
+		}
+		if c.seqExpected(seqDoc{rules: a.rules, salt: a.salt, use: n}) != c.seqExpected(seqDoc{rules: b.rules, salt: b.salt, use: n}) {
+			return true
+		}
+	}
+	return false
+}
+
+// seqFeatures: tags of the pair, from the two documents alone. toUser / toDefiner: the
+// reference's reading of the two documents gives a way for state carried over from the
+// definer to the user (from the user to the definer) to change the text.
+func (c *check) seqFeatures(definer, user seqDoc) (feats []string, toUser, toDefiner bool) {
+	set := map[string]bool{"sequence": true, "definer-rules=" + definer.rules.name: true, "user-rules=" + user.rules.name: true, "use=" + user.use: true, "definer-use=" + definer.use: true}
 	if definer.rules.name == user.rules.name && definer.use == user.use {
 		set["same-rules-and-use"] = true
 	}
-	userEnv := c.envFor(user.effective())
-	own := map[string]bool{}
-	for _, r := range user.effective() {
-		own[r.Name] = true
-	}
-	related := false
-	rs := reached(userEnv, user.use)
-	for _, r := range definer.effective() {
-		how, ok := rs[r.Name]
-		if !ok || own[r.Name] {
-			continue
-		}
-		related = true
+	du := c.definesForOther(definer, user)
+	for name, how := range du {
 		set["definer-defines-name-user-reaches"] = true
 		set["reached-"+how] = true
-		if _, predefined := c.predef[r.Name]; predefined {
+		if _, predefined := c.predef[name]; predefined {
 			set["reached-name-predefined"] = true
 		} else {
 			set["reached-name-undefined-in-user"] = true
 		}
 	}
+	ud := c.definesForOther(user, definer)
+	if len(ud) > 0 {
+		set["user-defines-name-definer-reaches"] = true
+	}
+	common := c.commonNameDiffers(definer, user)
+	if common {
+		set["both-reach-a-name-that-prints-differently"] = true
+	}
 	if len(definer.effective()) == 0 {
 		set["definer-defines-nothing"] = true
-	} else if !related {
+	} else if len(du) == 0 {
 		set["definer-unrelated-to-user"] = true
 	}
-	var out []string
 	for k := range set {
-		out = append(out, k)
+		feats = append(feats, k)
 	}
-	sort.Strings(out)
-	return out
+	sort.Strings(feats)
+	return feats, len(du) > 0 || common, len(ud) > 0 || common
 }
 
 func hasTag(l []string, t string) bool {
@@ -279,7 +319,7 @@ func seqRender(d seqDoc) string {
 }
 
 func (c *check) runSeq(ctx *engine.Ctx, definer, user seqDoc) {
-	feats := c.seqFeatures(definer, user)
+	feats, toUser, toDefiner := c.seqFeatures(definer, user)
 	uh, dh := user.html(), definer.html()
 	desc := "sequence of three renders in one process, user | definer | user: " + uh + " || " + dh
 	wantU, wantD := c.seqExpected(user), c.seqExpected(definer)
@@ -300,38 +340,49 @@ func (c *check) runSeq(ctx *engine.Ctx, definer, user seqDoc) {
 	}
 	ctx.Trans(2)
 	ctx.Count("sequence-renderings", 3)
-	related := hasTag(feats, "definer-defines-name-user-reaches")
-	if related {
+	if hasTag(feats, "definer-defines-name-user-reaches") {
 		ctx.Count("sequence-pairs:definer-defines-a-name-the-user-reaches-and-leaves-undefined", 1)
 	}
-	// the reference of the unit, and the definer, against the model: a difference here was
-	// not caused by this unit's sequence
-	refOK := true
+	if hasTag(feats, "both-reach-a-name-that-prints-differently") {
+		ctx.Count("sequence-pairs:both-reach-a-name-that-prints-differently", 1)
+	}
+	sound := true
+	// (1) the reference of the unit against the model: a difference here was not caused by
+	// this unit's sequence
 	if first != wantU {
-		refOK = false
+		sound = false
 		ctx.Fail(engine.Failure{Clause: "sequence-reference", Features: append([]string{"render=user-first"}, feats...), Case: desc,
 			Detail: fmt.Sprintf("the user document rendered FIRST in the unit (before the definer) already differs from the reference model: state left in this worker process by an earlier case, or a single-document defect (see the e2e families); model %s got %s", wantU, first)})
 	}
+	// (2) the definer, rendered after the user, against the model. When the two documents
+	// give state carried from the user to the definer a way to show, the difference is
+	// attributed to this unit (it shows again when the unit is re-run alone: the user's
+	// rendering is part of the unit); otherwise to the earlier history of the process.
 	if mid != wantD {
-		refOK = false
-		ctx.Fail(engine.Failure{Clause: "sequence-reference", Features: append([]string{"render=definer"}, feats...), Case: desc,
-			Detail: fmt.Sprintf("the definer document does not print what the reference model gives for it alone (state left by an earlier render of this process, or a single-document defect); model %s got %s", wantD, mid)})
+		sound = false
+		if toDefiner {
+			ctx.Fail(engine.Failure{Clause: "sequence-definer", Features: feats, Case: desc,
+				Detail: fmt.Sprintf("the definer document, rendered after the user document in the same process, does not print what the reference model gives for it alone: model %s got %s (the user printed %s)", wantD, mid, first)})
+		} else {
+			ctx.Fail(engine.Failure{Clause: "sequence-reference", Features: append([]string{"render=definer"}, feats...), Case: desc,
+				Detail: fmt.Sprintf("the definer document does not print what the reference model gives for it alone although the user document gives it nothing to pick up (state left by an earlier case of this process, or a single-document defect); model %s got %s", wantD, mid)})
+		}
 	}
+	// (3) the user again: same text as the first time. The definer's symbols carry the salt of
+	// this very unit, so with a definer that gives the user something to pick up the
+	// difference is this unit's doing whatever state the process was in before (and it shows
+	// again when the unit is re-run alone). A difference with a definer that gives the user
+	// nothing to pick up (by the reference's reading of the two documents) is kept apart: on
+	// a tree that carries state over it depends on what earlier units left behind.
 	if second != first {
-		// The definer's symbols carry the salt of this very unit, so for a definer that
-		// defines a name the user reaches the difference is this unit's doing whatever state
-		// the process was in before (and it shows again when the unit is re-run alone). A
-		// difference with a definer that defines nothing the user reaches (by the reference's
-		// reading of the user document alone) is kept apart: on a tree that carries state over
-		// it depends on what earlier units left behind.
 		clause := "sequence"
-		if !related {
+		if !toUser {
 			clause = "sequence-unrelated-definer"
 		}
 		ctx.Fail(engine.Failure{Clause: clause, Features: feats, Case: desc,
 			Detail: fmt.Sprintf("the user document prints a different text after the definer was rendered in the same process: alone %s, after the definer %s (definer printed %s; reference model for the user alone %s)", first, second, mid, wantU)})
 	}
-	// non-trivial: the definer demonstrably defined something the user could pick up, and
-	// the reference of the unit is sound
-	ctx.Case(related && refOK, "q|"+second)
+	// non-trivial: state carried over in one direction or the other would show, and the
+	// renderings that are not under test are what the model says
+	ctx.Case((toUser || toDefiner) && sound, "q|"+second)
 }
